@@ -581,6 +581,14 @@ def run_operator(sc: dict, wall_limit: float = 60.0) -> dict:
             terminate_ns(n, True)
         for p in sc.get("initial_resources", []):
             cluster.add_resource(RES[p], announce=True)
+        for p in sc.get("initial_crds", []):
+            # CRDs stored but not yet established when the operator starts: its initial listing of the CRDs shows them
+            if RES[p].key not in cluster.resources:
+                cluster.create_raw(fakeapi.CRDS, None, f"{RES[p].plural}.{RES[p].group}", {
+                    "spec": {"group": RES[p].group, "names": {"plural": RES[p].plural, "kind": RES[p].kind},
+                             "scope": "Namespaced" if RES[p].namespaced else "Cluster",
+                             "versions": [{"name": RES[p].version, "served": True, "storage": True}]},
+                    "status": {"conditions": [], "storedVersions": []}})
         initial_cluster_namespaces = sorted(k[2] for k in cluster.objects if k[0] == fakeapi.NAMESPACES.key)
         if sc.get("ns_forbidden"):
             mode = sc["ns_forbidden"]
@@ -688,6 +696,41 @@ def run_operator(sc: dict, wall_limit: float = 60.0) -> dict:
                             "name": raw_event["object"]["metadata"]["name"], "mark": ns_mark(raw_event["object"]),
                             "after": sorted(str(n) for n in insights.namespaces)})
         observation.process_discovered_namespace_event = obs_process  # type: ignore[assignment]
+        # the same for the resource kinds: every item handed to the CRD observer's processor, the scan it made for that item
+        # (the real scanning.scan_resources against the fake's discovery documents) and insights.watched_resources afterwards
+        import contextvars
+        crd_feed: list = []
+        cur_crd_ev: Any = contextvars.ContextVar("c19_crd_event", default=None)
+        orig_revise_res = observation.revise_resources
+        orig_rprocess = observation.process_discovered_resource_event
+
+        def watched_ids(ins: Any) -> list:
+            return sorted([r.group, r.version, r.plural] for r in ins.watched_resources)
+
+        def obs_revise_res(*, group: Any, insights: Any, registry: Any, resources: Any) -> None:
+            orig_revise_res(group=group, insights=insights, registry=registry, resources=resources)
+            ev = cur_crd_ev.get()
+            rec = {"t": loop.time(), "group": group, "scan": sorted([r.group, r.version, r.plural] for r in resources),
+                   "after": watched_ids(insights), "type": "STARTUP"}
+            if ev is not None:
+                ev["revised"] = True
+                rec.update(type=ev["type"], name=ev["name"], gen=ev["gen"], group=ev["group"])
+            crd_feed.append(rec)
+
+        async def obs_rprocess(*, raw_event: Any, insights: Any, **kw: Any) -> None:
+            meta_ = raw_event["object"].get("metadata", {})
+            ev = {"type": raw_event["type"] or "LISTED", "name": meta_.get("name"), "gen": meta_.get("generation"),
+                  "group": (raw_event["object"].get("spec") or {}).get("group"), "revised": False}
+            tok = cur_crd_ev.set(ev)
+            try:
+                await orig_rprocess(raw_event=raw_event, insights=insights, **kw)
+            finally:
+                cur_crd_ev.reset(tok)
+            if not ev["revised"]:
+                crd_feed.append({"t": loop.time(), "type": ev["type"], "name": ev["name"], "gen": ev["gen"], "group": ev["group"],
+                                 "scan": None, "after": watched_ids(insights)})
+        observation.revise_resources = obs_revise_res  # type: ignore[assignment]
+        observation.process_discovered_resource_event = obs_rprocess  # type: ignore[assignment]
         from kopf._core.reactor import orchestration
         passes: list = []
         orig_adjust = orchestration.adjust_tasks
@@ -776,6 +819,19 @@ def run_operator(sc: dict, wall_limit: float = 60.0) -> dict:
                     return tuple(getattr(rd, attr))
             return tuple(getattr(base, attr))
 
+        appearances: list = []      # cluster side: [t, plural] whenever a kind starts being served by the API server
+
+        def crd_name(p: str) -> str:
+            return f"{RES[p].plural}.{RES[p].group}"
+
+        def set_crd_conditions(p: str, conds: list, stored: Any = None) -> None:
+            def fn(body: dict) -> None:
+                st = body.setdefault("status", {})
+                st["conditions"] = [{"type": c[0], "status": c[1], "reason": c[2], "message": ""} for c in conds]
+                if stored is not None:
+                    st["storedVersions"] = list(stored)
+            cluster.mutate(fakeapi.CRDS, None, crd_name(p), fn)
+
         def do(o: list) -> None:
             name = o[0]
             if name == "add_ns":
@@ -797,11 +853,36 @@ def run_operator(sc: dict, wall_limit: float = 60.0) -> dict:
                     terminate_ns(o[1], False)
                     cluster._remove((fakeapi.NAMESPACES.key, None, o[1]))
             elif name == "add_res":
-                if RES[o[1]].key not in cluster.resources:
+                if RES[o[1]].key not in cluster.resources and cluster.get(fakeapi.CRDS, None, crd_name(o[1])) is None:
                     cluster.add_resource(RES[o[1]], announce=True)
+                    appearances.append([loop.time(), o[1]])
             elif name == "del_res":
                 if RES[o[1]].key in cluster.resources:
                     cluster.remove_resource(RES[o[1]])
+                elif cluster.get(fakeapi.CRDS, None, crd_name(o[1])) is not None:
+                    cluster._remove((fakeapi.CRDS.key, None, crd_name(o[1])))       # a CRD deleted before it was ever established
+            elif name == "add_crd":
+                # the FIRST of the stages in which a kind appears on a real API server: the CRD object is stored (ADDED,
+                # generation 1, no conditions yet); the kind is not served and not in the discovery documents yet
+                if RES[o[1]].key not in cluster.resources and cluster.get(fakeapi.CRDS, None, crd_name(o[1])) is None:
+                    r0 = RES[o[1]]
+                    cluster.create_raw(fakeapi.CRDS, None, crd_name(o[1]), {
+                        "spec": {"group": r0.group, "names": {"plural": r0.plural, "kind": r0.kind}, "scope": "Namespaced" if r0.namespaced else "Cluster",
+                                 "versions": [{"name": r0.version, "served": True, "storage": True}]},
+                        "status": {"conditions": [], "storedVersions": []}})
+            elif name == "accept_crd":
+                # the naming controller's verdict: a status-only update (same generation), the kind is still not served
+                if RES[o[1]].key not in cluster.resources:
+                    set_crd_conditions(o[1], [["NamesAccepted", "True", "NoConflicts"]])
+            elif name == "establish":
+                # the establishing controller's verdict: from this instant on the API server serves the kind and shows it in
+                # the discovery documents; the CRD object gets a STATUS-ONLY update (Established=True; metadata.generation
+                # as it was: only a change of the spec bumps it)
+                if RES[o[1]].key not in cluster.resources and cluster.get(fakeapi.CRDS, None, crd_name(o[1])) is not None:
+                    cluster.add_resource(RES[o[1]], announce=False)
+                    appearances.append([loop.time(), o[1]])
+                    set_crd_conditions(o[1], [["NamesAccepted", "True", "NoConflicts"], ["Established", "True", "InitialNamesAccepted"]],
+                                       stored=[RES[o[1]].version])
             elif name in ("create", "edit", "delete"):
                 res = RES[o[1]]
                 if res.key not in cluster.resources:
@@ -848,9 +929,19 @@ def run_operator(sc: dict, wall_limit: float = 60.0) -> dict:
                 cluster.edit(fakeapi.CRDS, None, f"{base.plural}.{base.group}", {"spec": {"rev": bump["n"]}})
             elif name == "touch_crd":
                 # the CRD object is MODIFIED and nothing about the resource changes (a status condition, an annotation,
-                # a re-applied manifest): the observer re-scans its API group and finds what it knew
+                # a re-applied manifest): the observer re-scans its API group and finds what it knew.
+                # o[2]: "spec" (default: a field of the spec, the generation goes up) | "status" (a condition's heartbeat:
+                # same generation) | "meta" (an annotation: same generation)
                 bump["n"] += 1
-                cluster.edit(fakeapi.CRDS, None, f"{RES[o[1]].plural}.{RES[o[1]].group}", {"spec": {"rev": bump["n"]}})
+                how = o[2] if len(o) > 2 else "spec"
+                if how == "spec":
+                    cluster.edit(fakeapi.CRDS, None, crd_name(o[1]), {"spec": {"rev": bump["n"]}})
+                elif how == "status":
+                    cluster.edit(fakeapi.CRDS, None, crd_name(o[1]), {"status": {"heartbeat": bump["n"]}})
+                elif how == "meta":
+                    cluster.edit(fakeapi.CRDS, None, crd_name(o[1]), {"metadata": {"annotations": {"touched": str(bump["n"])}}})
+                else:
+                    raise ValueError(f"unknown touch_crd mode {o!r}")
             elif name == "touch_ns":
                 # a namespace is MODIFIED (a label): still the same namespace
                 bump["n"] += 1
@@ -916,7 +1007,7 @@ def run_operator(sc: dict, wall_limit: float = 60.0) -> dict:
                     "watch_requests": [{"t": r["t"], "path": r["path"], "since": r["query"].get("resourceVersion"),
                                         "response": r["response"]} for r in cluster.requests
                                        if r["method"] == "GET" and r["query"].get("watch") == "true"],
-                    "ns_feed": ns_feed, "passes": passes, "orch_trace": trace_at_end, "deaths": deaths,
+                    "ns_feed": ns_feed, "crd_feed": crd_feed, "passes": passes, "orch_trace": trace_at_end, "deaths": deaths,
                     "revisions": [x for x in revisions if x[0] <= t_trace_end], "t_end": t_trace_end,
                     # cluster-level: every 404 answered to a list/watch request of an object resource, and every stored
                     # version of every namespace object (each one is an event on the namespaces' watch)
@@ -926,7 +1017,7 @@ def run_operator(sc: dict, wall_limit: float = 60.0) -> dict:
                                       and r["path"].rstrip("/").split("/")[-1] in RES_BY_NAME],
                     "ns_events": sorted([v["t"], k[2], v["event"]] for k, vs in cluster.history.items()
                                         if k[0][2] == "namespaces" for v in vs),
-                    "pauses": pauses, "initial_cluster_namespaces": initial_cluster_namespaces,
+                    "pauses": pauses, "initial_cluster_namespaces": initial_cluster_namespaces, "appearances": appearances,
                     # every stored version of every CRD object: each one is an event that makes the observer re-scan that API group
                     "crd_events": sorted([v["t"], k[2], v["event"]] for k, vs in cluster.history.items()
                                          if k[0][2] == "customresourcedefinitions" for v in vs),
@@ -946,6 +1037,8 @@ def run_operator(sc: dict, wall_limit: float = 60.0) -> dict:
         finally:
             observation.revise_namespaces = orig_revise  # type: ignore[assignment]
             observation.process_discovered_namespace_event = orig_process  # type: ignore[assignment]
+            observation.revise_resources = orig_revise_res  # type: ignore[assignment]
+            observation.process_discovered_resource_event = orig_rprocess  # type: ignore[assignment]
             orchestration.adjust_tasks = orig_adjust  # type: ignore[assignment]
             orchestration.terminate_redundancies = orig_terminate  # type: ignore[assignment]
             orchestration.orchestrator = orig_orchestrator  # type: ignore[assignment]
